@@ -164,7 +164,7 @@ func runDelay(c DCase) (map[string]int, error) {
 		}
 		return nil
 	}
-	const limit = 10 * time.Second
+	const limit = 45 * time.Second
 	wait := func(ch <-chan int, what string) (int, error) {
 		select {
 		case v := <-ch:
